@@ -3,7 +3,7 @@ CONSTANTS
   MaxS = 5
   MaxRestart = 1
   MaxRekey = 0
-  MaxSendCalls = 1
+  MaxSendCalls = 2
   AcceptA = {"A", "B", "M"}
   AcceptB = {"A", "B", "M"}
   RestartKeys = {"A"}
